@@ -78,12 +78,13 @@ Definition unkunit (u : string) : string :=
 
 Definition zlast (l : list Z) : Z := last l 0%Z.
 
-(* shape validation and default; the test on the last entry is made for both kinds *)
-Definition ifft_shape (ns : list Z) (rfft : bool) (sh : shape_arg) : res (list Z) :=
+(* shape validation and default; the test on the last entry is made for both kinds
+   ([check_last] = true is the code; false only serves the checker, see Check_C11) *)
+Definition ifft_shape_gen (check_last : bool) (ns : list Z) (rfft : bool) (sh : shape_arg) : res (list Z) :=
   let check (s : list Z) : res (list Z) :=
     if negb (length s =? length ns)%nat then Err ValueE else
     if negb (zlist_eqb (removelast s) (removelast ns)) then Err ValueE else
-    if negb (zlast s / 2 + 1 =? zlast ns)%Z then Err ValueE else OK s in
+    if check_last && negb (zlast s / 2 + 1 =? zlast ns)%Z then Err ValueE else OK s in
   match sh with
   | ShBad => Err TypeE
   | ShInt k => check [k]
@@ -92,6 +93,7 @@ Definition ifft_shape (ns : list Z) (rfft : bool) (sh : shape_arg) : res (list Z
       OK (if rfft && negb (zlast ns =? 1)%Z
           then removelast ns ++ [((zlast ns - 1) * 2)%Z] else ns)
   end.
+Definition ifft_shape := ifft_shape_gen true.
 
 (* one axis of the real-space mesh before recentring; [None] = the call fails (size 0) *)
 Definition iaxis (s : Z) (ck : Q) : option (Q * Q * Z) :=
@@ -114,8 +116,8 @@ Definition recentre (r : region) : region :=
   let c := center r in
   mkRegion (map2 Qminus (pmin r) c) (map2 Qminus (pmax r) c) (dims r) (units r) (tf r).
 
-Definition mesh_ifftn (m : mesh) (rfft : bool) (sh : shape_arg) : res mesh :=
-  do s <- ifft_shape (n m) rfft sh;
+Definition mesh_ifftn_gen (check_last : bool) (m : mesh) (rfft : bool) (sh : shape_arg) : res mesh :=
+  do s <- ifft_shape_gen check_last (n m) rfft sh;
   match opt_all (map2 iaxis s (cell m)) with
   | None => Err RuntimeE
   | Some ax =>
@@ -125,6 +127,7 @@ Definition mesh_ifftn (m : mesh) (rfft : bool) (sh : shape_arg) : res mesh :=
       do m' <- mk_mesh_n r (map thd3 ax);
       OK (mkMesh (recentre (reg m')) (n m') (bc m') (subs m'))
   end.
+Definition mesh_ifftn := mesh_ifftn_gen true.
 
 (* ------------------------------------------------------------------ Field._fftn: labels *)
 Definition ft_label (v : string) : string := String.append "ft_" v.
